@@ -52,7 +52,7 @@ def _gridspec(draw, big):
         else:
             mesh = draw(meshgen.solid_mesh_st())
         mesh.pop("centers", None)
-    return {"mesh": mesh, "source": src}
+    return {"mesh": mesh, "source": src, "radius": draw(st.sampled_from([1.0, 1.0, 2.5, 6371229.0]))}
 
 
 @st.composite
@@ -110,13 +110,13 @@ def _build_grid(spec):
         return build.grid_from_mesh(mesh)
     if spec["source"] == "vertices-xyz":
         INT_DTYPE, FILL = build.consts()
-        xyz = meshgen.mesh_xyz(mesh)
+        xyz = meshgen.mesh_xyz(mesh) * spec.get("radius", 1.0)  # Cartesian sources need not be on the unit sphere
         width = max(len(f) for f in mesh["faces"])
         arr = np.full((len(mesh["faces"]), width, 3), float(FILL))
         for i, f in enumerate(mesh["faces"]):
             arr[i, : len(f)] = [xyz[k] for k in f]
         return ux.Grid.from_face_vertices(arr, latlon=False)
-    ds, _ = writers.mpas_dataset(mesh)
+    ds, _ = writers.mpas_dataset(mesh, radius=spec.get("radius", 1.0))
     return ux.open_grid(ds)
 
 
